@@ -282,6 +282,28 @@ def _real_converters(r):
     ]
 
 
+def k2_post(line, impl_out, model_out):
+    """The model computes over the rationals, the implementation in float64: a deeply nested product can exceed 2^53
+    in the numerator, where float64 rounds. Such entries agree when they agree to 1e-12 relative; everything else stays
+    an exact comparison."""
+    if impl_out == model_out or not line.startswith(("m:pipeC", "m:pipeP")):
+        return impl_out, model_out
+    try:
+        a = [Fraction(t) for t in impl_out.strip("[]").split()]
+        b = [Fraction(t) for t in model_out.strip("[]").split()]
+        if len(a) != len(b):
+            return impl_out, model_out
+        for x, y in zip(a, b):
+            if x == y:
+                continue
+            big = max(abs(x.numerator), abs(y.numerator)) > 2 ** 52
+            if not (big and abs(x - y) <= Fraction(1, 10 ** 12) * max(abs(x), abs(y))):
+                return impl_out, model_out
+        return "agree-up-to-float64-rounding", "agree-up-to-float64-rounding"
+    except Exception:  # noqa: BLE001
+        return impl_out, model_out
+
+
 def _same(x, y):
     """exact equality, NaNs in the same places counting as equal (a converter fed a zero-mass image yields NaNs)"""
     x, y = np.asarray(x), np.asarray(y)
